@@ -34,7 +34,7 @@ ASSUMPTIONS = [
 
 def N(x): return C.coq_N(x)
 def Z(x): return C.coq_Z(x)
-def nlist(l): return '([' + '; '.join(str(x if x >= 0 else 999999) for x in l) + '])%N'   # -1 = an object the harness does not know
+def nlist(l): return '([' + '; '.join(str(x if isinstance(x, str) or x >= 0 else 999999) for x in l) + '])%N'   # -1 = an object the harness does not know
 def enc(bs): return hex(int.from_bytes(bytes([1] + list(bs)), 'big'))
 def tab(t): return '([' + '; '.join('(%d, %s)' % (e['n'], enc(e['d'])) for e in t) + '])%N'
 
